@@ -129,22 +129,35 @@ def lockstep(ops, obs, forced, upto=None, pid=PID, collect=None):
         except KeyError as ke:
             if forced:
                 # after a re-synchronised deviation the handle bookkeeping of the script (written for the W3C path) may no longer fit
-                run.stopped = 'diverged-after-deviation:' + sorted(forced.values())[0]
+                run.stopped = 'diverged-after-deviation:' + sorted(sorted(v)[0] for v in forced.values())[0]
                 return run
             raise Harness('script uses dead handle %s at op %d (%s)' % (ke, i, op.render()))
-        m.quirk = {forced[i]} if i in forced else set()
+        m.quirk = set(forced[i]) if i in forced else set()
         try:
             exp = m.apply(rop)
         except Undecided as u:
             run.stopped = 'undecided:%s' % u
             return run
+        except (TypeError, AttributeError, ValueError, IndexError):
+            if forced:       # handles mean something else on the re-synchronised path
+                run.stopped = 'diverged-after-deviation:' + sorted(sorted(v)[0] for v in forced.values())[0]
+                return run
+            raise
         finally:
             m.quirk = set()
+        if forced and sorted(set(exp.kills)) != sorted(op.kills) and exp.codes is None:
+            # the script's "!n" directives were computed on the W3C path; after a re-synchronised deviation they no longer
+            # describe what the library releases here, so the driver's handle table cannot be trusted any further
+            run.stopped = 'diverged-after-deviation:' + sorted(sorted(v)[0] for v in forced.values())[0]
+            return run
         if o is None:
             # quiet set-up operation: the driver logs nothing while it succeeds
             if exp.codes is not None:
                 raise Harness('set-up op %d expected to fail: %s' % (i, op.render()))
             continue
+        if forced and o.outcome.startswith('harness:'):
+            run.stopped = 'diverged-after-deviation:' + sorted(sorted(v)[0] for v in forced.values())[0]
+            return run
         if exp.dontcare:
             if o.outcome.startswith('harness:'):
                 raise Harness(o.outcome)
@@ -191,6 +204,15 @@ def lockstep(ops, obs, forced, upto=None, pid=PID, collect=None):
         if not exp.ud_dontcare:
             eu = sorted((a, b, c, d_) for (a, b, c, d_) in exp.ud)
             ou = sorted(o.ud)
+            if exp.ud_optional:
+                opt = list(exp.ud_optional)
+                rest = list(eu)
+                for x in ou:
+                    if x in rest:
+                        rest.remove(x)
+                    elif x in opt:
+                        opt.remove(x); eu.append(x)
+                eu.sort()
             if eu != ou:
                 kinds = sorted(set(x[0] for x in eu) ^ set(x[0] for x in ou)) or sorted(set(x[0] for x in eu + ou))
                 run.soft.append(Mismatch(i, op, exp, 'userdata-events:%s' % ('missing' if len(ou) < len(eu) else 'unexpected' if len(ou) > len(eu) else 'different') +
@@ -212,14 +234,17 @@ def compare_case(ops, obs):
             break
         explained = False
         if mm.i not in forced and mm.exp is not None and mm.exp.quirks:
-            for q in mm.exp.quirks:
+            qs = list(dict.fromkeys(mm.exp.quirks))
+            combos = [frozenset([q]) for q in qs] + ([frozenset(qs)] if len(qs) > 1 else [])
+            for combo in combos:
                 f2 = dict(forced)
-                f2[mm.i] = q
+                f2[mm.i] = combo
                 r2 = lockstep(ops, obs, f2, upto=mm.i)
-                if r2.mismatch is None and r2.stopped is None:
+                if r2.mismatch is None and (r2.stopped is None or r2.stopped.startswith('undecided') or r2.stopped.startswith('diverged')):
                     forced = f2
-                    viol.append(('%s:deviation:%s' % (PID, q), 'real library deviates from the DOM text in the way described by quirk "%s" (op %d: %s)' % (q, mm.i, mm.op.render()),
-                                 {'op_index': mm.i, 'op': mm.op.render(), 'w3c_mismatch': mm.direction, 'detail': _short(mm.detail)}))
+                    for q in sorted(combo):
+                        viol.append(('%s:deviation:%s' % (PID, q), 'real library deviates from the DOM text in the way described by quirk "%s" (op %d: %s)' % (q, mm.i, mm.op.render()),
+                                     {'op_index': mm.i, 'op': mm.op.render(), 'w3c_mismatch': mm.direction, 'detail': _short(mm.detail)}))
                     explained = True
                     break
         if not explained:
@@ -253,12 +278,12 @@ def case_ops(c):
     return [ScriptOp.from_json(j) for j in c.meta['ops']]
 
 
-def gen_random(seed, shard, n, nops, tail_prob):
+def gen_random(seed, shard, n, nops, tail_prob, chk=1):
     cases = []
     for k in range(n):
         g = domref.Gen(core.rng(seed, PID, 'random', shard, k), nops=nops)
         ops = g.script(tail_prob=tail_prob)
-        cases.append(mk_case('r%d_%d' % (shard, k), ops, cls='random'))
+        cases.append(mk_case('r%d_%d' % (shard, k), ops, chk=chk, cls='random'))
     return cases
 
 
@@ -284,32 +309,50 @@ def gen_exhaustive(depth, shard, nshards):
 # ---------------------------------------------------------------------------------------------------
 #  one shard (runs in a worker process)
 # ---------------------------------------------------------------------------------------------------
-def _detail_rerun(binary, c):
-    """re-execute one case with a full dump after every operation"""
-    c2 = core.Case(c.id + '_d', CMD, dict(c.opt, chk=1, dump=1), meta=c.meta)
+def _detailed(c, dump=-1):
+    c2 = core.Case(c.id + '_d', CMD, dict(c.opt, chk=1, dump=dump), meta=c.meta)
     c2.steps = list(c.steps)
-    recs = core.run_shard(binary, [c2], tag='c13d')
-    return recs.get(c2.id)
+    return c2
+
+
+def attach_observed_dump(binary, witness):
+    """re-execute the witness case with a full dump after every operation and attach what the real library showed"""
+    c = core.Case.from_json(witness['case'])
+    c2 = _detailed(c, dump=1)
+    r = core.run_shard(binary, [c2], tag='c13w').get(c2.id)
+    if r is None or not r.complete or r.crash:
+        return
+    dobs, _ = parse_obs(r.lines)
+    i = (witness.get('expected_vs_observed') or {}).get('op_index')
+    o = dobs.get(i)
+    if o is not None and o.dump is not None:
+        witness['observed_dump_at_op'] = o.dump[:200]
 
 
 def run_shard(args):
-    binary, kind, seed, shard, nshards, n, nops, tail_prob, depth = args
+    binary, kind, seed, shard, nshards, n, nops, tail_prob, depth = args[:9]
+    chk = args[9] if len(args) > 9 else 1
     t0 = time.time()
     out = dict(evaluations=0, ops=0, violations=[], harness=[], distinct=[], samples=[], classes={}, codes={}, stopped={}, crashes=[],
                skipped=0, alphabet=0, exc_expected=0, states=set(), kind=kind, scripts=0)
     if kind == 'random':
-        cases = gen_random(seed, shard, n, nops, tail_prob)
+        cases = gen_random(seed, shard, n, nops, tail_prob, chk)
     else:
         cases, out['skipped'], out['alphabet'] = gen_exhaustive(depth, shard, nshards)
     out['scripts'] = len(cases)
     tgen = time.time() - t0
     recs = core.run_shard(binary, cases, tag='c13%s%d' % (kind[0], shard), per_case_timeout=30.0)
     trun = time.time() - t0 - tgen
+    suspects = []
+
+    def crash_entry(c, r):
+        out['crashes'].append((c.to_json(), None if r is None else (r.crash.key() if r.crash else ('hang' if r.hang else 'incomplete')),
+                               None if r is None or not r.crash else r.crash.text[:6000], [] if r is None else r.lines[-3:]))
+
     for c in cases:
         r = recs.get(c.id)
         if r is None or not r.complete or r.crash or r.hang:
-            out['crashes'].append((c.to_json(), None if r is None else (r.crash.key() if r.crash else ('hang' if r.hang else 'incomplete')),
-                                   None if r is None or not r.crash else r.crash.text[:6000], [] if r is None else r.lines[-3:]))
+            crash_entry(c, r)
             continue
         ops = case_ops(c)
         obs, xl = parse_obs(r.lines)
@@ -335,20 +378,27 @@ def run_shard(args):
         if run.compared >= 10 and len(run.kinds) >= 4 and run.exc_expected >= 1:
             out['distinct'].append(core.h(run.seq))
         if viol:
-            need_detail = any('expected_dump' in (v[2].get('detail') or {}) for v in viol)
-            drec = _detail_rerun(binary, c) if need_detail else None
-            for key, what, det in viol:
-                w = {'case': c.to_json(), 'expected_vs_observed': det}
-                if drec is not None and drec.complete:
-                    dobs, _ = parse_obs(drec.lines)
-                    o = dobs.get(det.get('op_index'))
-                    if o is not None and o.dump is not None:
-                        w['observed_dump_at_op'] = o.dump[:200]
-                out['violations'].append((key, what, w))
+            suspects.append((c, viol))
         elif len(out['samples']) < 2 and run.compared >= 3:
             last = max(obs) if obs else None
             out['samples'].append({'script': domref.script_text(ops)[:1500], 'outcomes': run.seq[:60],
                                    'final_observed': (obs[last].outcome, obs[last].res, obs[last].inv, obs[last].crc) if last is not None else None})
+    # authoritative verdict for every suspect: one more batch with invariants + dump hash after EVERY operation
+    if suspects:
+        need = [x for x in suspects if int(x[0].opt.get('chk', 1)) != 1]
+        recs2 = core.run_shard(binary, [_detailed(c) for c, _ in need], tag='c13v%d' % shard, per_case_timeout=30.0) if need else {}
+        for c, viol in suspects:
+            r2 = recs2.get(c.id + '_d')
+            if r2 is not None and r2.complete and not r2.crash and not r2.hang:
+                dobs, xl = parse_obs(r2.lines)
+                try:
+                    _, viol2 = compare_case(case_ops(c), dobs)
+                    if viol2:
+                        viol = viol2
+                except Harness:
+                    pass
+            for key, what, det in viol:
+                out['violations'].append((key, what, {'case': c.to_json(), 'expected_vs_observed': det}))
     out['states'] = len(out['states'])
     out['t'] = (round(tgen, 1), round(trun, 1), round(time.time() - t0 - tgen - trun, 1))
     return out
@@ -360,6 +410,7 @@ def run_shard(args):
 def _rebuild(ops_nokill):
     """re-run the model over a candidate list: drop it when a handle is dead or the model cannot decide"""
     m = Model()
+    m.quirk = set(domref.KNOWN_DEVIATIONS)
     out = []
     for op in ops_nokill:
         try:
@@ -499,6 +550,8 @@ def run(tier):
         from concurrent.futures import ThreadPoolExecutor
         def sh(k):
             try:
+                if 'expected_vs_observed' in ck.violations[k]['witness']:
+                    attach_observed_dump(binary, ck.violations[k]['witness'])
                 return k, shrink(binary, first_witness[k], k)
             except Exception as e:          # shrinking is a convenience, never a verdict
                 return k, None
